@@ -216,9 +216,26 @@ func VerifC05_Poll(h *zz.H) {
 	}
 	done := make(chan error, 1)
 	go func() { done <- s.Subscribe(st) }()
+	// READD=1: between two rounds the target is removed and added again with a different leaf; the
+	// next poll answers from the cache as it is then (the subscription addresses the target by
+	// name, not the object that held its data when the stream started)
+	readdAt := -1
+	var leaves2 []vLeafSpec
+	if h.Param("READD", 0) == 1 && P >= 1 {
+		readdAt = h.Range("readd_before_poll", 0, P) // P = never
+	}
 	for i := 0; i <= P; i++ {
 		<-synced // the client received the sync_response of the previous round
 		if i < P {
+			if i == readdAt {
+				c.Remove(c05DevA)
+				c.Add(c05DevA)
+				nl := vLeafSpec{target: c05DevA, idx: []string{vName(h, "readd_leaf")}}
+				h.Assume(nl.idx[0] != "*" && nl.idx[0] != "meta")
+				nl.noti = nl.notification(100, 100)
+				h.Assume(c.GnmiUpdate(nl.noti) == nil)
+				leaves2 = []vLeafSpec{nl}
+			}
 			polls <- true
 		}
 	}
@@ -227,7 +244,11 @@ func VerifC05_Poll(h *zz.H) {
 	h.Assert(err == nil, "C05: a POLL subscription ends successfully on client EOF")
 	from := 0
 	for i := 0; i <= P; i++ {
-		from = c05CheckRound(h, st.sent, from, req.GetSubscribe(), target, leaves)
+		cur := leaves
+		if readdAt >= 0 && readdAt < P && i > readdAt {
+			cur = leaves2
+		}
+		from = c05CheckRound(h, st.sent, from, req.GetSubscribe(), target, cur)
 	}
 	h.Assert(from == len(st.sent), "C05: exactly one sync_response per trigger and nothing after the last one")
 }
